@@ -865,6 +865,18 @@ func exprString(e ast.Expr) string {
 // derefAll turns a pointer/interface to a (union) object into its flattened field structure, inlining
 // embedded pointers so that two objects can be compared field by field.
 func (ev *Ev) derefAll(v Val) Val {
+	if iv, ok := v.(Iface); ok && iv.Kind != "" {
+		// an AuctionI object compares like its union record: the dynamic kind is one of its leaves
+		inner := ev.derefAll(iv.V)
+		if st, ok := inner.(St); ok {
+			r := St{map[string]Val{"Kind": Sc{T: iv.Kind, Sort: "Int"}}}
+			for k, f := range st.F {
+				r.F[k] = f
+			}
+			return r
+		}
+		return inner
+	}
 	v = ev.deref(v)
 	if st, ok := v.(St); ok {
 		r := St{map[string]Val{}}
